@@ -678,6 +678,33 @@ func (e *Env) MeasurementDetail(shards []uint64, name string) []string {
 	return out
 }
 
+// DataSeries lists (canonical keys of) the series that have data - cache or TSM
+// files - in a shard's engine (diagnosis only: index-level vs data-level cause).
+func (e *Env) DataSeries(id uint64) map[string]struct{} {
+	out := map[string]struct{}{}
+	eng, err := e.engine(id)
+	if err != nil {
+		return out
+	}
+	add := func(k []byte) {
+		sk, _ := tsm1.SeriesAndFieldFromCompositeKey(k)
+		name, tags := models.ParseKeyBytes(sk)
+		tm := map[string]string{}
+		for _, t := range tags {
+			tm[string(t.Key)] = string(t.Value)
+		}
+		out[seriesKey(string(name), tm)] = struct{}{}
+	}
+	for _, k := range eng.Cache.Keys() {
+		add(k)
+	}
+	eng.FileStore.WalkKeys(nil, func(k []byte, _ byte) error {
+		add(append([]byte(nil), k...))
+		return nil
+	})
+	return out
+}
+
 // SeriesIDDetail lists the series ids a shard's index counts, resolved through the series file.
 func (e *Env) SeriesIDDetail(id uint64) []string {
 	sh := e.Store.Shard(id)
